@@ -100,6 +100,19 @@ def bounds(tier):
         "genbank_features": "0..3 per annotation (pairs of a 14-feature palette, triples of its first 8)",
         "gff_attr_string_len": 2,
         "history_depth": "to fixpoint, cap %d" % (6 if q else 8),
+        "audit_families": {
+            "sizes": "ORIGIN lengths 19..181 at every 10/60 boundary x 17 starts (line numbers crossing 10^k), 10021 bases; "
+                     "qualifier lines ending at columns 70..82, 100, 180; feature keys 13-15 (16 counted); field names 10-12, "
+                     "sub-field names 8-10; FASTA/FASTQ lengths k*width-1..+1 for widths 1,2,3,7,60,80",
+            "many": "9,10,11,99,100,101,%s entries / features / locations / qualifiers / qualifier lines / GFF rows / "
+                    "attributes / GenBank fields (>256 lines, edits at first, second, middle, last, -1, -n)" % (257 if q else 1000),
+            "flavours": "FASTQ scores: 8 integer dtypes x {contiguous, strided, reversed view, read-only, list, tuple, list of "
+                        "numpy scalars} x 5 offset flavours x 4 score sets x widths {None,2}; float32/64 counted; numpy ints in "
+                        "GFF columns, Location, sequence_start",
+            "alias_reuse": "13 APIs x 3 variants (argument unchanged, file independent of argument and of returned object); "
+                           "4 formats x 6x6 (content X then content Y == fresh object with Y)",
+            "order": "all permutations of 5 location sets, 4 qualifiers, 3 feature sets, 4 GFF features",
+        },
         "history_max_entries": {"fasta": 4, "fastq": "3" if q else "4 (offset Sanger, empty initial file), 3 (others)",
                                 "genbank": 4 if q else 5, "gff": "3" if q else "4 (no added directive), 3 (with one)"},
         "history_value_alphabets": "fasta 4 keys x 3 values (4 values at chars_per_line 3, thorough); fastq 3-4 keys x 4 "
@@ -1084,7 +1097,8 @@ def check_gb_field(case, ctx):
     content, sub = case["content"], case["sub"]
     ctx.ev(1, 1 if ("" in content or any("" in sl for _, sl in sub)) else 0)
     ctx.count("accepted")
-    exp = [["LOCUS", ["l"], []], ["A", list(content), [[k, list(v)] for k, v in sub]], ["B", ["z"], [["S", ["s"]]]]]
+    name = case.get("name", "A")
+    exp = [["LOCUS", ["l"], []], [name, list(content), [[k, list(v)] for k, v in sub]], ["B", ["z"], [["S", ["s"]]]]]
 
     def views(f):
         return [GenBankSpec._view(f[i]) for i in range(len(f))]
@@ -1092,7 +1106,7 @@ def check_gb_field(case, ctx):
     try:
         f = b.gb.GenBankFile()
         f.append("LOCUS", ["l"])
-        f.append("A", list(content), {k: list(v) for k, v in sub} if sub else None)
+        f.append(name, list(content), {k: list(v) for k, v in sub} if sub else None)
         f.append("B", ["z"], {"S": ["s"]})
         live = views(f)
         text = text_of(f)
@@ -1618,12 +1632,15 @@ class FastaSpec:
                 if k in have or len(m) < mx:
                     out.append(["set", k, v])
             out.append(["del", k])
-        leaves = [["set", " " + L + "w", "AC"], ["set", L + "w\n", "AC"], ["del", "zz"]]
+        leaves = [["set", " " + L + "w", "AC"], ["set", L + "w\n", "AC"], ["del", "zz"], ["set", L, 5], ["set", "b", None],
+                  ["set", 7, "AC"]]
         return out, leaves
 
     @staticmethod
     def model(m, op, cfg):
         if op[0] == "set":
+            if not isinstance(op[1], str) or not isinstance(op[2], str):
+                raise Refuse(None)  # 'only supports header strings as keys / sequence strings as values'
             if header_class(op[1]) != "plain":
                 return "unspec", None
             if op[1] in [k for k, _ in m]:
@@ -1684,6 +1701,8 @@ class FastaSpec:
     @staticmethod
     def opclass(op, m):
         if op[0] == "set":
+            if not isinstance(op[1], str) or not isinstance(op[2], str):
+                return "set_wrong_type"
             if header_class(op[1]) != "plain":
                 return "set_header_outer_whitespace"
             return "set_existing" if op[1] in [k for k, _ in m] else "set_new"
@@ -1718,7 +1737,9 @@ class FastqSpec:
         at, pl, lo = 64 - ov, 43 - ov, 33 - ov
         big = cfg.get("big")
         keys = [L, "b", L + "b"] + (["@" + L] if big else [])
-        vals = [["AC", [at, pl]], ["ACG", [pl, at, at]], ["A", [at]], ["ACGTA", [lo, pl, at, pl, at]], ["", []]]
+        vals = [["AC", [at, pl]], ["ACG", [pl, at, at]], ["A", [at]], ["ACGTA", [lo, pl, at, pl, at]]]
+        if not big:
+            vals.append(["", []])
         have = [k for k, _ in m]
         out = []
         for k in keys:
@@ -1726,13 +1747,17 @@ class FastqSpec:
                 if k in have or len(m) < (4 if big else 3):
                     out.append(["set", k, v])
             out.append(["del", k])
-        leaves = [["set", " " + L + "w", vals[0]], ["del", "zz"]]
+        leaves = [["set", " " + L + "w", vals[0]], ["del", "zz"], ["set", L, ["ACG", [at]]], ["set", "b", ["A", [at, pl]]],
+                  ["set", 7, ["A", [at]]], ["set", L, ["A", [200]]], ["set", "b", ["AC", [at, 200]]]]
         return out, leaves
 
     @staticmethod
     def model(m, op, cfg):
         if op[0] == "set":
-            if header_class(op[1]) != "plain":
+            if not isinstance(op[1], str) or len(op[2][0]) != len(op[2][1]):
+                raise Refuse(None)  # documented ValueError (lengths) / IndexError (identifier type)
+            ov = offset_value(cfg["o"])
+            if header_class(op[1]) != "plain" or any(not (33 <= x + ov <= 126) for x in op[2][1]):
                 return "unspec", None
             v = (op[2][0], list(op[2][1]))
             if op[1] in [k for k, _ in m]:
@@ -1783,6 +1808,12 @@ class FastqSpec:
     @staticmethod
     def opclass(op, m):
         if op[0] == "set":
+            if not isinstance(op[1], str):
+                return "set_wrong_key_type"
+            if len(op[2][0]) != len(op[2][1]):
+                return "set_length_mismatch"
+            if any(x >= 200 for x in op[2][1]):
+                return "set_score_not_printable"
             if op[2][0] == "":
                 return "set_empty_read"
             if header_class(op[1]) != "plain":
@@ -1871,12 +1902,16 @@ class GenBankSpec:
                   ["ins", -n - 1, v0], ["ins", n + 1, v0], ["app", ["C", [], None]], ["set_field", ["C", [], None]]]
         if n:
             leaves.append(["set", 0, ["C", [], None]])
+            leaves += [["set_raw", 0, "notatuple"], ["set_raw", -1, ["A"]], ["set_raw", 0, ["A", ["x"], None, None]]]
+        leaves += [["app", [" ", ["x"], None]], ["ins", 0, ["", ["x"], None]], ["set_field", ["", ["x"], None]]]
         return out, leaves
 
     @staticmethod
     def model(m, op, cfg):
         n = len(m)
         k = op[0]
+        if k == "set_raw" or (k in ("app", "ins", "set", "set_field") and op[-1][0].strip() == ""):
+            raise Refuse(None)  # documented TypeError (item is not a 2- or 3-tuple) / ValueError (empty name)
         if k in ("app", "set", "set_field") and len(op[-1][1]) == 0:
             return "outside", None
         if k in ("get", "set", "del", "ins") and op[1] < -n:
@@ -1935,6 +1970,8 @@ class GenBankSpec:
             del f[op[1]]
         elif k == "set_field":
             f.set_field(*GenBankSpec._args(op[1]))
+        elif k == "set_raw":
+            f[op[1]] = op[2] if isinstance(op[2], str) else tuple(op[2])
 
     @staticmethod
     def _view(field):
@@ -1980,7 +2017,11 @@ class GenBankSpec:
     def opclass(op, m):
         n = len(m)
         k = op[0]
+        if k == "set_raw":
+            return "set_item_not_a_field_tuple"
         v = op[-1] if k != "del" and k != "get" else None
+        if v is not None and v[0].strip() == "":
+            return k + "_empty_name"
         if v is not None and len(v[1]) == 0:
             return "empty_content"
         if k in ("get", "set", "del", "ins") and isinstance(op[1], int):
@@ -2283,6 +2324,24 @@ def hist_step(spec, cfg, hist, m, op, ctx):
         if bad:
             ctx.violation("%s|refused_but_changed_%s|%s" % (pre, bad[0][0], oc), "a refused edit changed the file", case,
                           bad[0][1], bad[0][2])
+            return None
+        # the next valid call on the SAME object must behave like on a fresh one
+        nxt = next((o for o in spec.ops(m, cfg, ctx.tier)[0]), None)
+        if nxt is not None:
+            try:
+                kind2, alts2 = spec.model(m, nxt, cfg)
+            except Refuse:
+                kind2 = None
+            if kind2 == "accept":
+                ctx.transition()
+                try:
+                    spec.apply(f, nxt, cfg)
+                    bad2 = min((observe_state(spec, f, a, cfg) for a in alts2), key=len)
+                except Exception as e:  # noqa: BLE001
+                    bad2 = [("raised_" + exc_name(e), "success", repr(e))]
+                if bad2:
+                    ctx.violation("%s|after_refusal_%s|%s" % (pre, bad2[0][0], oc), "a valid edit directly after a refused one "
+                                  "does not behave like on a fresh object", {**case, "then": nxt}, bad2[0][1], bad2[0][2])
         return None
     # unspecified: exception or not, the object must stay self-consistent
     sc = self_consistent(spec, f, cfg)
@@ -2326,6 +2385,9 @@ def run_hist_initial(spec, cfg, ctx):
 def run_hist(cfg, ctx):
     spec = SPECS[cfg["fmt"]]
     cap = 6 if ctx.tier == "quick" else 8
+    if cfg["fmt"] == "fastq" and cfg["w"] is None and not cfg.get("big"):
+        # deleting a re-indexed empty-read entry leaves a blank line behind: the text space is unbounded, explore to depth 5
+        cap = 5
     ctx.journal(json.dumps({"kind": "hist", "cfg": cfg}))
     r = run_hist_initial(spec, cfg, ctx)
     if r is None:
@@ -2373,6 +2435,559 @@ def replay_hist(case, ctx):
         m = m2
 
 
+
+
+# ===========================================================================
+# Dimension audit families (size switches, many items, aliasing, array flavours, order, reuse, error paths)
+# ===========================================================================
+def gen_sizes(tier, seed):
+    """Size switches of the anchored code, each straddled: ORIGIN chunk (10) / line (60) boundaries, ORIGIN line number
+    width (9 columns; numbers changing width inside one file), the 80-column mark of qualifier lines (21 + len), the 15
+    character feature key column, the 12 character field name column, FASTA / FASTQ wrapping at exact multiples."""
+    P = POS_PALETTES[seed % 5]
+    an = [feat([[P[0], P[1], 1, 0]], [("note", "a b")])]
+    for n in (19, 20, 21, 29, 30, 31, 49, 50, 51, 69, 70, 71, 179, 180, 181):
+        for start in (1, 9, 10, 99, 100, 940, 999, 1000, 9940, 9999, 10000, 99940, 99999, 100000, 9999999, 10000000, 99999940):
+            yield gbcase(an, seq=("ACGTTGCAAC" * 20)[:n], start=start)
+    for start in (1, 9940, 99999940 - 10020):
+        yield gbcase(an, seq=("ACGTTGCAAC" * 1003)[:10021], start=start)
+    # qualifier lines ending just before / at / after column 80 (21 blanks + /note=" + value + ")
+    for n in (49, 50, 51, 52, 57, 58, 59, 60, 61, 79, 80, 81, 159, 160, 161):
+        for v in ("x" * n, ("ab " * 60)[:n].rstrip() + "c", ("word " * 40)[:n - 1] + "\n" + "y" * n):
+            yield gbcase([feat([[P[0], P[1], 1, 0]], [("note", v)])])
+            yield gbcase([feat([[P[0], P[1], -1, BEY_L], [P[2], P[2], 1, 0]], [("gene", "g"), ("note", v), ("pseudo", None)])])
+    # feature key column: 14 / 15 fit; 16 does not (GenBank limit) -> counted only
+    for n in (13, 14, 15):
+        yield gbcase([feat([[P[0], P[1], 1, 0]], [("note", "x")], key="k" * n)])
+    yield {"kind": "gb_unspec", "what": "feature_key_16", "feats": [feat([[P[0], P[1], 1, 0]], key="k" * 16)]}
+    # field / sub-field name column (12)
+    for n in (10, 11, 12):
+        yield {"kind": "gb_field", "content": ["x", "", "y"], "sub": [["S" * min(n - 2, 10), ["s", ""]]], "name": "N" * n}
+    for n in (8, 9, 10):
+        yield {"kind": "gb_field", "content": ["x"], "sub": [["S" * n, ["", "s"]], ["T", ["t"]]], "name": "A"}
+    # FASTA / FASTQ: exact multiples of the width for every width in use
+    L = LETTERS[seed % 5]
+    for cpl in (1, 2, 3, 7, 60, 80):
+        for k in (1, 2, 3):
+            for d in (-1, 0, 1):
+                n = cpl * k + d
+                if n >= 0:
+                    yield {"kind": "fasta", "h": L + "s", "s": ("ACGTN" * (n // 5 + 1))[:n], "t": "iupac", "cpl": cpl}
+                    if n > 0:
+                        yield {"kind": "fastq", "o": "Sanger", "w": cpl, "id": L, "seq": ("ACGTN" * (n // 5 + 1))[:n],
+                               "sc": [(31, 10, 0, 93)[(i + n) % 4] for i in range(n)], "ci": n}
+
+
+def check_gb_unspec(case, ctx):
+    """Inputs the format cannot express: executed, outcome counted, nothing demanded."""
+    b = B()
+    ctx.ev(1, 1)
+    ctx.count("unspecified")
+    fail, _ = gb_eval(b, case["feats"], DEFAULT_SEQ, 1, "gb")
+    ctx.count("outside_statement_%s_%s" % (case["what"], "recovered" if fail is None else fail[0]))
+    ctx.outcome(("gb_unspec", case["what"], fail is None))
+
+
+def gen_many(tier, seed):
+    """Many items: counts whose decimal representation changes width, more entries / features / locations /
+    qualifiers / lines than any first-sized buffer."""
+    P = POS_PALETTES[seed % 5]
+    L = LETTERS[seed % 5]
+    counts = (9, 10, 11, 99, 100, 101) + ((1000,) if tier == "thorough" else (257,))
+    for n in counts:
+        ents = [["%s%d" % (L, i), ("ACGTN" * 3)[: i % 13]] for i in range(n)]
+        for cpl in (3, 80):
+            yield {"kind": "fasta_multi", "ents": ents, "cpl": cpl, "typed": False}
+        for w in (None, 2):
+            yield {"kind": "fastq_multi", "o": "Sanger", "w": w,
+                   "ents": [["%s%d" % (L, i), ("ACGTN" * 3)[: i % 7], [(31, 10, 0, 93)[(i + j) % 4] for j in range(i % 7)]]
+                            for i in range(n)]}
+        # n features (distinct positions, ties in the first position, qualifier = running number)
+        yield gbcase([feat([[1 + (i // 2) * 3, 2 + i * 3, 1 if i % 3 else -1, 0]], [("n", str(i))], key="gene" if i % 2 else "CDS")
+                      for i in range(n)])
+        # one feature with n locations (location string far beyond 80 columns), n qualifiers, an n-line qualifier
+        yield gbcase([feat([[1 + 10 * i, 5 + 10 * i, 1 if i % 4 else -1, (0, BEY_L, BEY_R, UNK)[i % 4] if i % 5 == 0 else 0]
+                            for i in range(n)], [("gene", "x")])])
+        yield gbcase([feat([[P[0], P[1], 1, 0]], [("k%d" % i, (None if i % 7 == 3 else "v%d" % i)) for i in range(n)])])
+        yield gbcase([feat([[P[0], P[1], -1, 0]], [("note", "\n".join("" if i % 10 == 0 else "line %d" % i for i in range(n)))])])
+        # GFF3: n entries, n attributes, n locations under one ID
+        yield {"kind": "gff", "ents": [[[0, "s%d" % i], [3, i + 1], [4, i + n], [7, i % 3], [8, [["ID", "i%d" % i]]]] for i in range(n)]}
+        yield {"kind": "gff", "ents": [[[8, [["k%d" % i, "v;%d" % i] for i in range(n)]]]]}
+        yield {"kind": "gff_annot", "seqid": "s", "source": "src",
+               "feats": [feat([[1 + 10 * i, 5 + 10 * i, 1 if i % 4 else -1, 0] for i in range(n)], [["ID", "f1"]], "CDS")]}
+        yield {"kind": "gff_annot", "seqid": "s", "source": "src",
+               "feats": [feat([[1 + 3 * i, 2 + 3 * i, 1, 0]], [["ID", "f%d" % i]], "gene") for i in range(n)]}
+        # GenBankFile with n fields and > 256 lines, edited at the first / middle / last index
+        yield {"kind": "gb_many", "n": n}
+    yield gbcase([feat([[P[0], P[1], 1, 0]])], seq=("ACGTTGCAAC" * 10001)[:100001], start=1)
+    yield {"kind": "fastq", "o": "Sanger", "w": 80, "id": L, "seq": ("ACGTN" * 2001)[:10001],
+           "sc": [(31, 10, 0, 93)[i % 4] for i in range(10001)], "ci": 1}
+
+
+def check_gb_many(case, ctx):
+    b = B()
+    n = case["n"]
+    ctx.ev(1, 1)
+    ctx.count("accepted")
+
+    def field(i):
+        if i % 10 == 3:
+            return ["FEATURES", ["     gene            %d..%d" % (j + 1, j + 5) for j in range(30)], []]
+        if i % 10 == 7:
+            return ["ORIGIN", ["%9d %s" % (1 + 60 * j, "acgtacgtac acgtacgtac") for j in range(25)], []]
+        return ["REFERENCE", ["%d  (bases 1 to %d)" % (i, i)], [["AUTHORS", ["A%d" % i, "B"]], ["TITLE", ["t"] * (1 + i % 3)]]]
+
+    def views(f):
+        return [GenBankSpec._view(f[i]) for i in range(len(f))]
+
+    try:
+        f = b.gb.GenBankFile()
+        model = []
+        for i in range(n):
+            v = field(i)
+            f.append(v[0], list(v[1]), {k: list(x) for k, x in v[2]} or None)
+            model.append(v)
+        new = ["COMMENT", ["c1", "", "c3"], [["SUB", ["s"]]]]
+        steps = []
+        for idx in (0, 1, n // 2, n - 1, -1, -n):
+            steps += [("set", idx), ("ins", idx), ("del", idx)]
+        steps.append(("ins", len(model)))
+        for op, idx in steps:
+            if op == "set":
+                f[idx] = (new[0], list(new[1]), {k: list(x) for k, x in new[2]})
+                model[idx] = new
+            elif op == "ins":
+                f.insert(idx, new[0], list(new[1]), {k: list(x) for k, x in new[2]})
+                model.insert(idx, new)
+            else:
+                del f[idx]
+                del model[idx]
+            live = views(f)
+            parsed = views(b.gb.GenBankFile.read(io.StringIO(text_of(f))))
+            if live != model or parsed != model:
+                which = "live" if live != model else "parsed"
+                bad = next((i for i, (x, y) in enumerate(zip(live if which == "live" else parsed, model)) if x != y), None)
+                ctx.violation("genbank|many_fields|%s_differs|%s_%s" % (which, op, "neg" if idx < 0 else "pos"),
+                              "after an edit of a file with many fields the %s view disagrees with the list model" % which,
+                              case, [op, idx, "first difference at field %r" % bad, model[bad] if bad is not None else len(model)],
+                              (live if which == "live" else parsed)[bad] if bad is not None else len(live))
+                return
+        ctx.outcome(("gb_many", n, len(f.lines)))
+    except Exception as e:  # noqa: BLE001
+        ctx.violation("genbank|many_fields|%s" % exc_name(e), "editing a file with many fields raised", case, "success", repr(e))
+
+
+# ---- array / number flavours -------------------------------------------------
+SCORE_DTYPES = ["int8", "int16", "int32", "int64", "uint8", "uint16", "uint32", "uint64"]
+SCORE_LAYOUTS = ["contiguous", "strided", "reversed_view", "readonly", "list", "tuple", "list_of_numpy_scalars"]
+
+
+def gen_flavours(tier, seed):
+    for o in ("Sanger", "Solexa", "np.int64:33", "np.uint8:64", "np.int8:33"):
+        ov = offset_value(o) if o in OFFSET_NAMES else int(o.split(":")[1])
+        for sc in ([], [126 - ov], [33 - ov, 64 - ov, 43 - ov, 126 - ov], [64 - ov] * 5):
+            for dt in SCORE_DTYPES:
+                if dt.startswith("u") and any(x < 0 for x in sc):
+                    continue
+                for lay in SCORE_LAYOUTS:
+                    for w in (None, 2):
+                        yield {"kind": "fastq_flavour", "o": o, "w": w, "sc": sc, "dt": dt, "lay": lay}
+            for dt in ("float64", "float32"):
+                yield {"kind": "fastq_flavour", "o": o, "w": None, "sc": sc, "dt": dt, "lay": "contiguous"}
+    # numpy integers / floats where the documentation says int / float
+    for t in ("int64", "int32", "uint8", "int16"):
+        yield {"kind": "num_flavour", "api": "gff", "t": t}
+        yield {"kind": "num_flavour", "api": "genbank", "t": t}
+
+
+def make_scores(b, sc, dt, lay):
+    np = b.np
+    if lay == "list":
+        return list(sc)
+    if lay == "tuple":
+        return tuple(sc)
+    if lay == "list_of_numpy_scalars":
+        return [np.dtype(dt).type(x) for x in sc]
+    a = np.array(sc, dtype=dt)
+    if lay == "strided":
+        big = np.zeros(2 * len(sc), dtype=dt)
+        big[::2] = a
+        return big[::2]
+    if lay == "reversed_view":
+        return np.array(sc[::-1], dtype=dt)[::-1]
+    if lay == "readonly":
+        a.setflags(write=False)
+    return a
+
+
+def check_fastq_flavour(case, ctx):
+    b = B()
+    np = b.np
+    o = case["o"]
+    off = o if o in OFFSET_NAMES else getattr(np, o.split(":")[0][3:])(int(o.split(":")[1]))
+    sc, dt, lay, w = case["sc"], case["dt"], case["lay"], case["w"]
+    floaty = dt.startswith("float")
+    ctx.ev(1, 1)
+    ctx.count("unspecified" if floaty else "accepted")
+    seq = ("ACGTN" * 2)[:len(sc)]
+    cls = "%s_%s" % (dt if not floaty else "float", lay)
+    try:
+        arr = make_scores(b, sc, dt, lay)
+        keep = list(arr) if not isinstance(arr, np.ndarray) else arr.copy()
+        f = b.fastq.FastqFile(offset=off, chars_per_line=w)
+        f["r"] = (seq, arr)
+        text = text_of(f)
+        g = b.fastq.FastqFile.read(io.StringIO(text), offset=off, chars_per_line=w)
+        got = [(k, s, q.tolist()) for k, (s, q) in g.items()]
+        f2 = b.fastq.FastqFile(offset=off, chars_per_line=w)
+        b.fastq.set_sequence(f2, b.seq.NucleotideSequence(seq), arr, header="r")
+        text2 = text_of(f2)
+    except Exception as e:  # noqa: BLE001
+        if floaty:
+            ctx.outcome(("flavour_exc", cls))
+            return
+        ctx.violation("fastq|flavour|%s|%s" % (exc_name(e), cls), "score container of a documented kind is not accepted", case,
+                      sc, repr(e))
+        return
+    ctx.outcome(("flavour", cls, text))
+    if got != [("r", seq, list(sc))] or text2 != text:
+        ctx.violation("fastq|flavour|scores_changed|%s" % cls, "scores handed over in this container are not recovered", case,
+                      [["r", seq, list(sc)]], [got, text2])
+        return
+    same = list(arr) == keep if not isinstance(arr, np.ndarray) else (arr.dtype == keep.dtype and np.array_equal(arr, keep))
+    if not same:
+        ctx.violation("fastq|flavour|argument_modified|%s" % cls, "the score container passed to the file was modified", case,
+                      list(map(int, keep)), list(map(int, arr)))
+
+
+def check_num_flavour(case, ctx):
+    b = B()
+    np = b.np
+    T = getattr(np, case["t"])
+    ctx.ev(1, 1)
+    ctx.count("accepted")
+    try:
+        if case["api"] == "gff":
+            f = b.gff.GFFFile()
+            f.append("s", "src", "CDS", T(7), T(100), np.float64(0.5), b.REV, T(2), {"ID": "x"})
+            f.insert(0, "s", "src", "gene", T(1), T(5), None, b.FWD, None, {"ID": "y"})
+            g = b.gff.GFFFile.read(io.StringIO(text_of(f)))
+            got = [gff_view(b, g[i]) for i in range(len(g))]
+            exp = [["s", "src", "gene", 1, 5, None, 1, None, {"ID": "y"}], ["s", "src", "CDS", 7, 100, 0.5, -1, 2, {"ID": "x"}]]
+            ok = len(got) == 2 and all(same_entry(x, y) for x, y in zip(exp, got))
+        else:
+            loc = b.Location(T(3), T(9), b.REV, b.Location.Defect.BEYOND_LEFT)
+            an = b.Annotation([b.Feature("gene", [loc, b.Location(T(20), T(20))], {"gene": "x"})])
+            f = b.gb.GenBankFile()
+            b.gb.set_annotated_sequence(f, b.AnnotatedSequence(an, b.seq.NucleotideSequence("ACGT" * 20), sequence_start=T(7)))
+            r = b.gb.get_annotated_sequence(b.gb.GenBankFile.read(io.StringIO(text_of(f))))
+            got = [show_annot(annot_model(b, r.annotation)), r.sequence_start, str(r.sequence)]
+            exp = [[["gene", [[3, 9, -1, BEY_L], [20, 20, 1, 0]], [["gene", "x"]]]], 7, "ACGT" * 20]
+            ok = got == exp
+    except Exception as e:  # noqa: BLE001
+        ctx.violation("%s|flavour|%s|numpy_%s" % (case["api"], exc_name(e), case["t"]), "numpy integers are not accepted where "
+                      "integers are documented", case, "success", repr(e))
+        return
+    ctx.outcome(("num_flavour", case["api"], case["t"], ok))
+    if not ok:
+        ctx.violation("%s|flavour|values_changed|numpy_%s" % (case["api"], case["t"]), "numbers given as numpy scalars are not "
+                      "recovered", case, exp, got)
+
+
+# ---- aliasing and reuse ------------------------------------------------------
+def gen_alias(tier, seed):
+    L = LETTERS[seed % 5]
+    for api in ("fastq_setitem", "fastq_set_sequence", "fastq_get", "fasta_set_sequences", "gb_field_set", "gb_field_insert",
+                "gb_field_get", "gb_set_annotation", "gb_get_annotation", "gff_append", "gff_setitem", "gff_get",
+                "gff_set_annotation"):
+        for variant in (0, 1, 2):
+            yield {"kind": "alias", "api": api, "v": variant, "L": L}
+    for fmt in ("fasta", "fastq", "genbank", "gff"):
+        for i in range(6):
+            for j in range(6):
+                yield {"kind": "reuse", "fmt": fmt, "i": i, "j": j, "L": L}
+
+
+def _snap(x):
+    import copy
+
+    return copy.deepcopy(x)
+
+
+def check_alias(case, ctx):
+    """(1) a call must not modify its mutable arguments, (2) mutating the arguments afterwards must not change the file,
+    (3) mutating what a getter handed out must not change the file.  Differential oracle: text of the file before and
+    after; arguments against a private deep copy."""
+    b = B()
+    np = b.np
+    api, v = case["api"], case["v"]
+    ctx.ev(1, 1)
+    ctx.count("accepted")
+    bad = []
+
+    def same(a, c):
+        if isinstance(a, np.ndarray):
+            return a.dtype == c.dtype and np.array_equal(a, c)
+        if isinstance(a, dict):
+            return list(a.items()) == list(c.items()) and all(same(a[k], c[k]) for k in a)
+        if isinstance(a, (list, tuple)):
+            return len(a) == len(c) and all(same(x, y) for x, y in zip(a, c))
+        return a == c
+
+    def scramble(x):
+        if isinstance(x, np.ndarray):
+            if x.flags.writeable:
+                x += 1
+        elif isinstance(x, dict):
+            for k in list(x):
+                scramble(x[k]) if isinstance(x[k], (list, dict, np.ndarray)) else x.__setitem__(k, "CHANGED")
+            x["added"] = "CHANGED"
+        elif isinstance(x, list):
+            for i in range(len(x)):
+                if isinstance(x[i], (list, dict, np.ndarray)):
+                    scramble(x[i])
+                else:
+                    x[i] = "CHANGED" if isinstance(x[i], str) else x[i]
+            x.append("CHANGED")
+
+    def run(make_file, call, args, getter=None):
+        f = make_file()
+        keep = _snap(args)
+        call(f, *args)
+        if not same(list(args), list(keep)):
+            bad.append(("argument_modified", keep, list(args)))
+        t0 = text_of(f)
+        for a in args:
+            scramble(a)
+        if text_of(f) != t0:
+            bad.append(("file_follows_argument", t0, text_of(f)))
+        if getter is not None:
+            out = getter(f)
+            t1 = text_of(f)
+            ref = _snap(out)
+            scramble(out)
+            if isinstance(out, tuple):
+                for o in out:
+                    scramble(o)
+            if text_of(f) != t1:
+                bad.append(("file_follows_returned_object", t1, text_of(f)))
+            again = getter(f)
+            if not same(again if not isinstance(again, tuple) else list(again), ref if not isinstance(ref, tuple) else list(ref)):
+                bad.append(("getter_result_follows_returned_object", ref, again))
+
+    sc = [np.array([31, 10, 0], dtype=np.int64), [31, 10, 0], np.array([31, 10, 0], dtype=np.int8)][v]
+    content = [["l1", "l2"], ["l1"], ["", "x", ""]][v]
+    sub = [{"S": ["s1", "s2"]}, {"S": ["s"], "T": ["t1", ""]}, {}][v]
+    attrs = [{"ID": "x", "note": "a;b"}, {"k": ""}, {}][v]
+    GB, GFF = b.gb.GenBankFile, b.gff.GFFFile
+    try:
+        if api == "fastq_setitem":
+            run(lambda: b.fastq.FastqFile("Sanger", [None, 1, 2][v]), lambda f, s: f.__setitem__("r", ("ACG", s)), [sc],
+                lambda f: f["r"][1])
+        elif api == "fastq_set_sequence":
+            run(lambda: b.fastq.FastqFile("Sanger"), lambda f, s: b.fastq.set_sequence(f, b.seq.NucleotideSequence("ACG"), s), [sc],
+                lambda f: b.fastq.get_sequence(f)[1])
+        elif api == "fastq_get":
+            def mk():
+                f = b.fastq.FastqFile("Sanger", [None, 1, 2][v])
+                f["r"] = ("ACG", [31, 10, 0])
+                return b.fastq.FastqFile.read(io.StringIO(text_of(f)), "Sanger")
+            run(mk, lambda f: None, [], lambda f: f.get_quality("r"))
+        elif api == "fasta_set_sequences":
+            d = {"a": b.seq.NucleotideSequence("ACGT"), "b": b.seq.ProteinSequence("MK*")}
+            f = b.fasta.FastaFile()
+            b.fasta.set_sequences(f, d)
+            t0 = text_of(f)
+            if list(d) != ["a", "b"] or str(d["a"]) != "ACGT":
+                bad.append(("argument_modified", "dict a,b", list(d)))
+            d["a"].code[:] = 0
+            d["c"] = d["b"]
+            out = b.fasta.get_sequences(f)
+            out["a"].code[:] = 1
+            if text_of(f) != t0:
+                bad.append(("file_follows_argument", t0, text_of(f)))
+        elif api in ("gb_field_set", "gb_field_insert"):
+            def mk():
+                f = GB()
+                f.append("A", ["x"])
+                f.append("FEATURES", ["     gene            1..5"])
+                return f
+            for name in ("B", "FEATURES", "ORIGIN"):
+                if api == "gb_field_set":
+                    run(mk, lambda f, c, s: f.__setitem__(0, (name, c, s)), [list(content), _snap(sub)], lambda f: f[0][1:])
+                else:
+                    run(mk, lambda f, c, s: f.insert(1, name, c, s), [list(content), _snap(sub)], lambda f: f[1][1:])
+        elif api == "gb_field_get":
+            f = GB.read(io.StringIO(GB_TEXT))
+            for i in range(len(f)):
+                run(lambda: f, lambda f_: None, [], lambda f_, i=i: f_[i][1:])
+                run(lambda: f, lambda f_: None, [], lambda f_, i=i: f_.get_fields(f_[i][0])[0])
+        elif api in ("gb_set_annotation", "gb_get_annotation"):
+            q = [{"gene": "x", "note": "l1\nl2"}, {"pseudo": None}, {}][v]
+            locs = [b.Location(1, 5), b.Location(9, 9, b.REV)]
+            ft = b.Feature("CDS", locs, q)
+            an = b.Annotation([ft])
+            f = GB()
+            b.gb.set_annotation(f, an)
+            t0 = text_of(f)
+            if an != b.Annotation([b.Feature("CDS", [b.Location(1, 5), b.Location(9, 9, b.REV)], _snap(q))]):
+                bad.append(("argument_modified", "annotation", repr(an)))
+            q["added"] = "CHANGED"
+            locs.append(b.Location(50, 60))
+            an.add_feature(b.Feature("gene", [b.Location(2, 3)]))
+            if text_of(f) != t0:
+                bad.append(("file_follows_argument", t0, text_of(f)))
+            r1 = b.gb.get_annotation(f)
+            r1.add_feature(b.Feature("gene", [b.Location(2, 3)]))
+            for x in r1:
+                x.qual["added"] = "CHANGED"
+            if text_of(f) != t0 or b.gb.get_annotation(f) != b.gb.get_annotation(GB.read(io.StringIO(t0))):
+                bad.append(("file_follows_returned_object", t0, text_of(f)))
+        elif api in ("gff_append", "gff_setitem", "gff_get"):
+            def mk():
+                f = GFF()
+                f.append("s", "src", "gene", 1, 5, None, b.FWD, None, {"ID": "first"})
+                return f
+            if api == "gff_append":
+                run(mk, lambda f, a: f.append("s", "src", "CDS", 2, 3, 0.5, b.REV, 0, a), [_snap(attrs)], lambda f: f[1][8])
+            elif api == "gff_setitem":
+                run(mk, lambda f, a: f.__setitem__(0, ("s", "src", "CDS", 2, 3, 0.5, b.REV, 0, a)), [_snap(attrs)], lambda f: f[0][8])
+            else:
+                run(lambda: GFF.read(io.StringIO(GFF_TEXT)), lambda f: None, [], lambda f: f[v % 2][8])
+        elif api == "gff_set_annotation":
+            q = [{"ID": "f1", "note": "a b"}, {"ID": "f1"}, {"ID": "f1", "k": ""}][v]
+            an = b.Annotation([b.Feature("CDS", [b.Location(1, 5), b.Location(9, 12, b.REV)], q)])
+            f = GFF()
+            b.gff.set_annotation(f, an, seqid="s", source="src")
+            t0 = text_of(f)
+            if an != b.Annotation([b.Feature("CDS", [b.Location(1, 5), b.Location(9, 12, b.REV)], _snap(q))]):
+                bad.append(("argument_modified", "annotation", repr(an)))
+            q["added"] = "CHANGED"
+            r1 = b.gff.get_annotation(f)
+            for x in r1:
+                x.qual["added"] = "CHANGED"
+            rows = [f[i] for i in range(len(f))]
+            rows[0][8]["added"] = "CHANGED"
+            if text_of(f) != t0 or b.gff.get_annotation(f) != b.gff.get_annotation(GFF.read(io.StringIO(t0))):
+                bad.append(("file_follows_argument_or_result", t0, text_of(f)))
+    except Exception as e:  # noqa: BLE001
+        import traceback
+
+        ctx.violation("alias|%s|%s" % (api, exc_name(e)), "aliasing scenario raised", case, "success",
+                      "".join(traceback.format_exception(type(e), e, e.__traceback__))[-800:])
+        return
+    ctx.outcome(("alias", api, v, len(bad)))
+    if bad:
+        ctx.violation("alias|%s|%s" % (api, bad[0][0]), "file object and caller share mutable state", case, bad[0][1], bad[0][2])
+
+
+def check_reuse(case, ctx):
+    """Object reuse: an object that already holds content X and is then given content Y must afterwards be
+    indistinguishable (parsed view, second write) from a fresh object given Y."""
+    b = B()
+    fmt, i, j, L = case["fmt"], case["i"], case["j"], case["L"]
+    ctx.ev(1, 1 if i != j else 0)
+    ctx.count("accepted")
+    P = POS_PALETTES[0]
+    try:
+        if fmt == "fasta":
+            vals = ["", "A", "ACGTACG", "ACG" * 30, "NNRY", "L*K"]
+            for cpl in (3, 80):
+                used = b.fasta.FastaFile(cpl)
+                used[L] = vals[i]
+                used["b"] = "GG"
+                text_of(used)
+                used[L] = vals[j]
+                fresh = b.fasta.FastaFile(cpl)
+                fresh["b"] = "GG"
+                fresh[L] = vals[j]
+                got, exp = sorted(b.fasta.FastaFile.read(io.StringIO(text_of(used))).items()), sorted(fresh.items())
+                if got != exp or text_of(used) != text_of(used):
+                    ctx.violation("reuse|fasta|differs_from_fresh", "reused FastaFile differs from a fresh one", case, exp, got)
+        elif fmt == "fastq":
+            vals = [("", []), ("A", [31]), ("ACG", [10, 31, 31]), ("ACGTA", [0, 10, 31, 10, 93]), ("AC", [31, 10]), ("ACGT" * 5, [31] * 20)]
+            for w in (None, 2):
+                used = b.fastq.FastqFile("Sanger", w)
+                used[L] = vals[i]
+                used["b"] = ("GG", [1, 2])
+                text_of(used)
+                used[L] = vals[j]
+                fresh = b.fastq.FastqFile("Sanger", w)
+                fresh["b"] = ("GG", [1, 2])
+                fresh[L] = vals[j]
+                rd = b.fastq.FastqFile.read(io.StringIO(text_of(used)), "Sanger")
+                got = sorted((k, s, q.tolist()) for k, (s, q) in rd.items())
+                exp = sorted((k, s, q.tolist()) for k, (s, q) in fresh.items())
+                if got != exp:
+                    ctx.violation("reuse|fastq|differs_from_fresh", "reused FastqFile differs from a fresh one", case, exp, got)
+        elif fmt == "genbank":
+            pal = gb_feature_palette(P)
+            seqs = ["A", "ACGTACGTAC", "ACGT" * 16, "ACGT" * 31, "NNRY", "ACGTA" * 24 + "C"]
+            a1 = b.AnnotatedSequence(b.Annotation([mk_feature(b, pal[i]), mk_feature(b, pal[(i + 7) % 14])]),
+                                     b.seq.NucleotideSequence(seqs[i]), 1 + 6 * i)
+            a2 = b.AnnotatedSequence(b.Annotation([mk_feature(b, pal[j + 6])]), b.seq.NucleotideSequence(seqs[j]), 1 + 99 * j)
+            used = b.gb.GenBankFile()
+            b.gb.set_locus(used, "X", len(seqs[i]), "DNA", False, "BCT", "01-JAN-2000")
+            b.gb.set_annotated_sequence(used, a1)
+            text_of(used)
+            b.gb.set_annotated_sequence(used, a2)
+            b.gb.set_locus(used, "X", len(seqs[j]), "DNA", False, "BCT", "01-JAN-2000")
+            fresh = b.gb.GenBankFile()
+            b.gb.set_locus(fresh, "X", len(seqs[j]), "DNA", False, "BCT", "01-JAN-2000")
+            b.gb.set_annotated_sequence(fresh, a2)
+            t_used, t_fresh = text_of(used), text_of(fresh)
+            r = b.gb.get_annotated_sequence(b.gb.GenBankFile.read(io.StringIO(t_used)))
+            r2 = b.gb.get_annotated_sequence(used)
+            if t_used != t_fresh or r != a2 or r2 != a2 or text_of(used) != t_used:
+                ctx.violation("reuse|genbank|differs_from_fresh", "GenBankFile whose fields were set a second time differs from a "
+                              "fresh one", case, t_fresh[:600], t_used[:600])
+        else:
+            ents = [gff_entry(d) for d in ([], [[0, L + ";b"], [6, -1]], [[5, 2.5], [8, None]], [[2, "CDS"], [7, 1]],
+                                           [[8, [["k", "v "]]]], [[3, 7], [4, 7]])]
+            used = b.gff.GFFFile()
+            used.append(*gff_args(b, ents[i]))
+            used.append(*gff_args(b, ents[(i + 1) % 6]))
+            t1 = text_of(used)
+            used[0] = tuple(gff_args(b, ents[j]))
+            del used[1]
+            fresh = b.gff.GFFFile()
+            fresh.append(*gff_args(b, ents[j]))
+            if text_of(used) != text_of(fresh) or text_of(used) != text_of(used) or t1 == "":
+                ctx.violation("reuse|gff|differs_from_fresh", "reused GFFFile differs from a fresh one", case, text_of(fresh),
+                              text_of(used))
+    except Exception as e:  # noqa: BLE001
+        ctx.violation("reuse|%s|%s" % (fmt, exc_name(e)), "reuse scenario raised", case, "success", repr(e))
+        return
+    ctx.outcome(("reuse", fmt, i, j))
+
+
+# ---- order independence ------------------------------------------------------
+def gen_order(tier, seed):
+    """The recovered content must not depend on the order in which locations / qualifiers / features / attributes were
+    handed over: every permutation of each listed object."""
+    P = POS_PALETTES[seed % 5]
+    atoms = gb_atoms(P)
+    loc_sets = [[atoms[0], atoms[13], atoms[40]], [atoms[5], atoms[77], atoms[100]], [atoms[60], atoms[61], atoms[2], atoms[99]],
+                [atoms[24], atoms[25]], [[1, 5, 1, 0], [1, 5, -1, 0], [1, 5, 1, BEY_L]]]
+    quals = [("gene", "x"), ("note", "l1\nl2"), ("pseudo", None), ("product", "a b")]
+    for locs in loc_sets:
+        for perm in itertools.permutations(locs):
+            yield gbcase([feat(list(perm), [("gene", "x")])])
+            yield {"kind": "gff_annot", "seqid": "s", "source": "src",
+                   "feats": [feat([[l[0], l[1], l[2], 0] for l in perm], [["ID", "f1"]], "CDS")]}
+    for qperm in itertools.permutations(quals):
+        yield gbcase([feat([atoms[0]], list(qperm))])
+        yield {"kind": "gff", "ents": [[[8, [[k, v or ""] for k, v in qperm]]]]}
+    pal = gb_feature_palette(P)
+    for fs in ([pal[0], pal[5], pal[7]], [pal[1], pal[2], pal[3]], [pal[8], pal[4], pal[12], pal[13]]):
+        for perm in itertools.permutations(fs):
+            yield gbcase(list(perm))
+    gfeats = [feat([atoms[0]], [["ID", "f1"]]), feat([atoms[1], atoms[50]], [["ID", "f2"]], "CDS"), feat([atoms[30]], []),
+              feat([atoms[30]], [["note", "x"]], "exon")]
+    for perm in itertools.permutations(gfeats):
+        yield {"kind": "gff_annot", "seqid": "s", "source": "src", "feats": list(perm)}
+
+
 # ===========================================================================
 # shards / dispatch
 # ===========================================================================
@@ -2391,10 +3006,16 @@ FAMILIES = {
     "gff": (gen_gff, 2, 2),
     "gff_annot": (gen_gff_annot, 2, 2),
     "general": (gen_general, 1, 1),
+    "sizes": (gen_sizes, 2, 2),
+    "many": (gen_many, 4, 6),
+    "flavours": (gen_flavours, 2, 2),
+    "alias_reuse": (gen_alias, 1, 1),
+    "order": (gen_order, 1, 1),
 }
 CHECKERS = {"fasta": check_fasta, "fasta_multi": check_fasta_multi, "fastq": check_fastq, "fastq_multi": check_fastq_multi,
             "gb": check_gb, "gb_locus": check_gb_locus, "gb_field": check_gb_field, "gff": check_gff, "gff_annot": check_gff_annot,
-            "general": check_general}
+            "general": check_general, "gb_unspec": check_gb_unspec, "gb_many": check_gb_many,
+            "fastq_flavour": check_fastq_flavour, "num_flavour": check_num_flavour, "alias": check_alias, "reuse": check_reuse}
 
 
 def shards(tier, seed):
